@@ -24,6 +24,7 @@ import (
 	"path/filepath"
 	"strconv"
 	"strings"
+	"syscall"
 	"time"
 
 	"github.com/folbricht/desync"
@@ -50,6 +51,7 @@ type c11ReloadStep struct {
 	Config  int      `json:"config"`
 	Build   string   `json:"build"`
 	Swap    string   `json:"swap"`
+	Panic   string   `json:"panic"`
 	Chain   string   `json:"chain"`
 	Get     []string `json:"get"`
 	Has     []string `json:"has"`
@@ -57,6 +59,7 @@ type c11ReloadStep struct {
 }
 
 var c11ReloadBin string
+var c11ReloadHangs int
 
 // c11ReloadBinary builds (once per run) the desync binary with the reload driver overlaid onto cmd/desync.
 func c11ReloadBinary(a vh.Args, r *vh.Result) string {
@@ -147,6 +150,9 @@ func c11ReloadPolicy(cfg c11ReloadCfg, has map[string]map[int]bool, id int) (get
 }
 
 func c11ReloadShape(cfg c11ReloadCfg, member map[string]int, nextGroup *int, server bool) string {
+	if nextGroup == nil { // chunk-server -w: the single WritableStore as it is
+		return fmt.Sprintf("L%d", member[cfg.Stores[0]])
+	}
 	var locs []string
 	for _, loc := range cfg.Stores {
 		ms := strings.Split(loc, "|")
@@ -250,7 +256,8 @@ func c11CheckReload(a vh.Args, o *vh.Oracle, r *vh.Result, bin string, c *c11Rel
 			stable = append(stable, ids[i])
 		}
 	}
-	script := map[string]interface{}{"kind": c.Reload, "store_file": filepath.Join(work, "stores.json"), "queries": ids, "stable": stable}
+	nobody := desync.Digest.Sum([]byte("a chunk no store has"))
+	script := map[string]interface{}{"kind": c.Reload, "store_file": filepath.Join(work, "stores.json"), "queries": ids, "stable": stable, "missing": hex.EncodeToString(nobody[:])}
 	var cfgs []c11ReloadCfg
 	for _, cfg := range c.Configs {
 		cfgs = append(cfgs, abs(cfg))
@@ -271,13 +278,33 @@ func c11CheckReload(a vh.Args, o *vh.Oracle, r *vh.Result, bin string, c *c11Rel
 			r.Fail("predicate", "cli/reload-driver-fails", fmt.Sprintf("reload driver: %v: %s", err, strings.TrimSpace(stderr.String())), c)
 			return nil
 		}
-	case <-time.After(60 * time.Second):
-		cmd.Process.Kill()
-		<-done
-		r.Fail("predicate", "cli/reload-hangs", "start-up + reload through the CLI constructors did not finish within 60 s", c)
+	case <-time.After(20 * time.Second):
+		cmd.Process.Signal(syscall.SIGQUIT) // makes the Go runtime dump the goroutines
+		select {
+		case <-done:
+		case <-time.After(3 * time.Second):
+			cmd.Process.Kill()
+			<-done
+		}
+		var stuck []string
+		for _, g := range strings.Split(stderr.String(), "\n\n") {
+			if strings.Contains(g, "desync.(*Swap") && len(stuck) < 4 {
+				ls := strings.Split(g, "\n")
+				if len(ls) > 9 {
+					ls = ls[:9]
+				}
+				stuck = append(stuck, strings.Join(ls, "\n"))
+			}
+		}
+		c11ReloadHangs++
+		r.Fail("predicate", "swap/request-and-swap-stuck", fmt.Sprintf("%s --store-file: start-up + reload (configurations %v) with readers in flight - one of them asking for a chunk no store has - made no progress for 20 s:\n%s", c.Reload, c.Configs, strings.Join(stuck, "\n\n")), c)
 		return nil
 	}
 	var steps []c11ReloadStep
+	if stdout.Len() == 0 {
+		r.Fail("predicate", "cli/reload-driver-fails", "reload driver produced no report: "+strings.TrimSpace(stderr.String()), c)
+		return nil
+	}
 	if err := json.Unmarshal(stdout.Bytes(), &steps); err != nil {
 		return fmt.Errorf("reload driver output: %v: %q", err, stdout.String())
 	}
@@ -293,6 +320,12 @@ func c11CheckReload(a vh.Args, o *vh.Oracle, r *vh.Result, bin string, c *c11Rel
 	r.Count(key, len(c.Configs) >= 2)
 	r.Dist("reload:" + c.Reload)
 	// ---- predicate ----
+	for k, st := range steps {
+		if st.Panic != "" {
+			r.Fail("predicate", "swap/panic", fmt.Sprintf("%s --store-file: reloading from configuration %d (%s) to %d (%s) panicked: %s", c.Reload, max(k-1, 0), shapeOf(c.Configs[max(k-1, 0)]), k, shapeOf(c.Configs[k]), st.Panic), c)
+			return nil
+		}
+	}
 	if len(steps) != len(c.Configs) {
 		r.Fail("predicate", "cli/reload-driver-fails", fmt.Sprintf("%d configurations, %d reports", len(c.Configs), len(steps)), c)
 		return nil
@@ -343,11 +376,16 @@ func c11CheckReload(a vh.Args, o *vh.Oracle, r *vh.Result, bin string, c *c11Rel
 		return nil
 	}
 	ng := 0
-	top := "S=" + c11ReloadShape(c.Configs[0], member, &ng, c.Reload == "server")
+	ngp := &ng
+	mode := "S="
+	if c.Reload == "server-w" {
+		ngp, mode = nil, "W="
+	}
+	top := mode + c11ReloadShape(c.Configs[0], member, ngp, c.Reload == "server")
 	var ops []string
 	for k := range c.Configs {
 		if k > 0 {
-			ops = append(ops, "w="+c11ReloadShape(c.Configs[k], member, &ng, c.Reload == "server"))
+			ops = append(ops, "w="+c11ReloadShape(c.Configs[k], member, ngp, c.Reload == "server"))
 		}
 		for q := 0; q < c.NChunks; q++ {
 			ops = append(ops, "g"+strconv.Itoa(q), "h"+strconv.Itoa(q))
@@ -431,8 +469,18 @@ func c11Reload(a vh.Args, o *vh.Oracle, r *vh.Result, rng *vh.Rand) error {
 	}
 	serial := 0
 	run := func(c *c11ReloadCase) error {
+		if c11ReloadHangs >= 1 {
+			return nil // a hang costs 20 s of watchdog time: one is enough
+		}
 		serial++
+		r.Running(c)
 		return c11CheckReload(a, o, r, bin, c, serial)
+	}
+	// chunk-server -w: LocalStore -> LocalStore (the writable server wraps the bare store in a SwapWriteStore)
+	for k := 0; k < 3; k++ {
+		if err := run(c11GenReload(rng, "server-w", []string{"one", "one", "one"})); err != nil {
+			return err
+		}
 	}
 	// every chain shape to every chain shape, as mount-index does it; a sample of them as chunk-server does it
 	for _, from := range c11ReloadShapes {
@@ -461,4 +509,12 @@ func c11Reload(a vh.Args, o *vh.Oracle, r *vh.Result, rng *vh.Rand) error {
 		}
 	}
 	return nil
+}
+
+// C11reload runs only the CLI reload family (debugging aid: vh C11reload -oracle ... -out ...).
+func init() {
+	props["C11reload"] = func(a vh.Args, o *vh.Oracle, r *vh.Result) error {
+		r.Rule = "CLI reload family of C11 only"
+		return c11Reload(a, o, r, vh.NewRand(a.Seed))
+	}
 }
